@@ -8,6 +8,7 @@
   / `saturating_sub` and the unchecked i64 subtraction in `can_pause` are exact (hypothesis `hlim`).
 -/
 import Mfi.Model.Panic
+import Mfi.Gen.Constraints
 
 namespace Mfi.Props.C15
 open Mfi.Panic Mfi.Gen
@@ -382,5 +383,22 @@ example : let w := run (init 1000) [(0, .pause), (10, .propagate)]
 /-- daily limit reached: fourth pause within the day refused, counter reset path exercised later -/
 example : let w := run (init 0) [(0, .pause), (1800, .pause), (1800, .pause)]
     w.ghostPauses = 3 ∧ ixPause w.st 5400 = none ∧ (ixPause w.st 86400).isSome = true := by decide
+
+/-! ### every instruction's pause gate is the expiry-aware one
+
+`protocolPaused` above is `MarginfiGroup::is_protocol_paused()` (flag AND not expired). That a lapsed pause stops blocking "without
+anyone acting" needs every gated instruction to ask exactly that function — not the cached flag alone. The account-constraint
+table regenerated from the source knows one pause test, `notPaused` (the normalised expression `!G.load()?.is_protocol_paused()`);
+any other expression on a group account would be kept as `.other n`. -/
+
+def isNotPaused : Gen.Acc.C → Bool
+  | .notPaused _ => true
+  | _ => false
+
+/-- **every_pause_gate_is_expiry_aware**: in all 78 account structs, every raw constraint that sits on the group account is the
+    `is_protocol_paused()` test — no instruction gates on the cached pause flag, on the stored start time or on anything else -/
+theorem every_pause_gate_is_expiry_aware :
+    (Gen.Acc.allStructs.all fun s => (Gen.Acc.fields s).all fun f =>
+      if f.name = .f_group ∨ f.name = .f_marginfi_group then f.cons.all isNotPaused else true) = true := by decide
 
 end Mfi.Props.C15
